@@ -19,36 +19,13 @@ pub mod io {
 }
 impl From<io::Error> for Error { #[verifier::external_body] fn from(e: io::Error) -> Error { unimplemented!() } }
 
-// str::starts_with / strip_prefix with a `&&str` pattern (prefix test on the texts)
-pub uninterp spec fn pattern_text<P>(p: P) -> Seq<char>;
-pub open spec fn is_prefix(p: Seq<char>, s: Seq<char>) -> bool { p.len() <= s.len() && s.subrange(0, p.len() as int) == p }
-pub assume_specification<P: std::str::pattern::Pattern> [str::starts_with::<P>] (s: &str, p: P) -> (r: bool)
-    ensures r == is_prefix(pattern_text(p), s@);
-pub assume_specification<'a, P: std::str::pattern::Pattern> [str::strip_prefix::<P>] (s: &'a str, p: P) -> (r: Option<&'a str>)
-    ensures is_prefix(pattern_text(p), s@) ==> r is Some && r->0@ == s@.subrange(pattern_text(p).len() as int, s@.len() as int),
-            !is_prefix(pattern_text(p), s@) ==> r is None;
-#[verifier::external_body]
-pub proof fn fact_pattern_ref_ref_str()
-    ensures forall|p: &&str| #[trigger] pattern_text::<&&str>(p) == (**p)@
-{}
-
-// C18: the longest (in bytes) matching strip-prefix is removed; among equally long ones the first
-pub open spec fn blen(s: Seq<char>) -> nat { vstd::utf8::encode_utf8(s).len() }
-pub open spec fn best_prefix(path: Seq<char>, ps: Seq<&str>, i: int) -> bool {
-    0 <= i < ps.len() && is_prefix(ps[i]@, path)
-    && forall|j: int| 0 <= j < ps.len() && is_prefix(#[trigger] ps[j]@, path) ==> blen(ps[j]@) <= blen(ps[i]@)
-}
+//@include contracts/lstrip_specs.rs
 //@extract src/runlib.rs fn:apply_left_strip props=C18,C14
 //@uncontinue
 //@subst D27 /String::from\(path\)/ => path.to_owned()
 //@subst D27 /String::from\(stripped_path\)/ => stripped_path.to_owned()
 //@contract ret=r
-    ensures
-        r is Ok,                                                                  // [C18]
-        lstrip_paths is None ==> r->Ok_0@ == path@,                               // [C18]
-        lstrip_paths is Some && (forall|j: int| 0 <= j < lstrip_paths->0@.len() ==> !is_prefix(#[trigger] lstrip_paths->0@[j]@, path@)) ==> r->Ok_0@ == path@,   // [C18]
-        lstrip_paths is Some && (exists|j: int| 0 <= j < lstrip_paths->0@.len() && is_prefix(#[trigger] lstrip_paths->0@[j]@, path@)) ==>
-            exists|i: int| best_prefix(path@, lstrip_paths->0@, i) && r->Ok_0@ == path@.subrange(#[trigger] lstrip_paths->0@[i]@.len() as int, path@.len() as int),   // [C18]
+//@include contracts/apply_left_strip.rs
 //@before /let mut stripped_path = path;/
     let ghost ps = l_paths@;
     let ghost mut best: int = -1;
